@@ -1302,3 +1302,122 @@ Proof.
   - exists (es_of es0 (map snd l1)), (es_of es0 (map snd l2)).
     split; [exact Hc1|]. split; [exact Hc2|]. now apply es_of_lookup_perm.
 Qed.
+
+(* ================================================================== *)
+(* 10. the Repaired protocol never deadlocks                           *)
+(* ================================================================== *)
+
+Lemma idle_inv_step p c g c' : idle_inv c -> sched_step p c g = Some c' -> idle_inv c'.
+Proof.
+  intros Hi Hs. destruct (sched_step_inv _ _ _ _ Hs) as [t [k [rest [Hn [Hcalls [_ ->]]]]]].
+  intros g2 t2 Hy Hc2. cbn [g_threads] in Hy.
+  destruct (nth_error_set_nth_cases _ _ _ _ _ _ Hn Hy) as [[-> ->]|[Hne Hy']].
+  - unfold advance in *. rewrite Hcalls in *.
+    destruct (t_pc t); try (destruct (decide k (t_read t))); try destruct p;
+      cbn [set_pc set_pc_read finish_call t_calls t_pc] in *; try reflexivity; congruence.
+  - now apply (Hi g2).
+Qed.
+
+Lemma idle_inv_run p c sch c' : idle_inv c -> run_sched p c sch = Some c' -> idle_inv c'.
+Proof. apply (run_sched_ind idle_inv p). intros ? ? ?. apply idle_inv_step. Qed.
+
+Lemma quiescent_idle_inv c : quiescent c -> idle_inv c.
+Proof.
+  intros [_ [_ Hall]] g t Hn _. rewrite Forall_forall in Hall. apply Hall.
+  eapply nth_error_In; exact Hn.
+Qed.
+
+Lemma forallb_false_nth {A} (f : A -> bool) l :
+  forallb f l = false -> exists g x, nth_error l g = Some x /\ f x = false.
+Proof.
+  induction l as [|a l IH]; cbn [forallb]; [discriminate|].
+  destruct (f a) eqn:E; cbn [andb].
+  - intros Hf. destruct (IH Hf) as [g [x [Hn Hx]]]. now exists (S g), x.
+  - intros _. now exists 0, a.
+Qed.
+
+Lemma count_r_pos_nth ths :
+  0 < count_r ths -> exists g t, nth_error ths g = Some t /\ holds_r t = true.
+Proof.
+  unfold count_r. induction ths as [|a l IH]; cbn [filter length]; [lia|].
+  destruct (holds_r a) eqn:E.
+  - intros _. now exists 0, a.
+  - intros Hp. destruct (IH Hp) as [g [t [Hn Ht]]]. now exists (S g), t.
+Qed.
+
+Lemma sched_step_enabled p c g t k rest :
+  nth_error (g_threads c) g = Some t -> t_calls t = k :: rest ->
+  enabled (g_sh c) g (ev_at k (t_pc t) (t_read t)) = true ->
+  exists c', sched_step p c g = Some c'.
+Proof.
+  intros Hn Hcalls Hen. unfold sched_step, next_ev. rewrite Hn, Hcalls, Hen. eauto.
+Qed.
+
+(* in every reachable configuration that is not finished some goroutine can move *)
+Theorem repaired_progress c0 sch c :
+  quiescent c0 -> run_sched Repaired c0 sch = Some c -> finished c = false ->
+  exists g c', sched_step Repaired c g = Some c'.
+Proof.
+  intros Hq Hr Hfin.
+  assert (Hlock : lock_inv c) by (eapply lock_inv_run; [|exact Hr]; now apply quiescent_lock_inv).
+  assert (Hidle : idle_inv c) by (eapply idle_inv_run; [|exact Hr]; now apply quiescent_idle_inv).
+  destruct Hlock as [Hcnt [Hw1 [Hw2 Hw0]]].
+  destruct (wlock (g_sh c)) as [gw|] eqn:Hwl.
+  - (* the writer can always continue *)
+    destruct (Hw2 gw eq_refl) as [t [Hn Hh]]. exists gw.
+    destruct (t_calls t) as [|k rest] eqn:Hcalls.
+    { unfold holds_w in Hh. rewrite (Hidle _ _ Hn Hcalls) in Hh. discriminate. }
+    eapply sched_step_enabled; [exact Hn|exact Hcalls|].
+    unfold holds_w in Hh. destruct (t_pc t); try discriminate; reflexivity.
+  - destruct (rlocks (g_sh c)) as [|r] eqn:Hrl.
+    + (* nothing is held: any unfinished goroutine can take its next step *)
+      apply forallb_false_nth in Hfin as [g [t [Hn Hd]]]. exists g.
+      unfold thread_done in Hd. destruct (t_calls t) as [|k rest] eqn:Hcalls; [discriminate|].
+      eapply sched_step_enabled; [exact Hn|exact Hcalls|].
+      assert (Hnw : holds_w t = false).
+      { destruct (holds_w t) eqn:E; [|reflexivity]. pose proof (Hw1 _ _ Hn E). congruence. }
+      assert (Hnr : holds_r t = false) by (eapply count_r_zero; [|exact Hn]; lia).
+      unfold holds_w in Hnw. unfold holds_r in Hnr. unfold enabled. rewrite Hwl, Hrl.
+      destruct (t_pc t); try discriminate; reflexivity.
+    + (* a reader can always continue *)
+      destruct (count_r_pos_nth (g_threads c)) as [g [t [Hn Hh]]]; [lia|]. exists g.
+      destruct (t_calls t) as [|k rest] eqn:Hcalls.
+      { unfold holds_r in Hh. rewrite (Hidle _ _ Hn Hcalls) in Hh. discriminate. }
+      eapply sched_step_enabled; [exact Hn|exact Hcalls|].
+      unfold holds_r in Hh. destruct (t_pc t); try discriminate; reflexivity.
+Qed.
+
+(* a complete schedule of the Repaired protocol for the two calls of the counterexample:
+   both entries are in the file, and the serial run in linearisation order agrees *)
+Lemma repaired_example :
+  exists c,
+    run_sched Repaired (init_cfg ex_file ex_prog) ex_sched_ok = Some c /\
+    finished c = true /\
+    outcomes c = [[OUpdated]; [OAdded]] /\
+    final_file c = Some (frame ex_tidA ex_new ++ frame ex_tidB ex_snapB) /\
+    map fst (lin_order Repaired (init_cfg ex_file ex_prog) ex_sched_ok) = [0; 1] /\
+    fst (run_serial Repaired ex_file (lin_order Repaired (init_cfg ex_file ex_prog) ex_sched_ok))
+      = final_file c.
+Proof. eexists. split; [vm_compute; reflexivity|]. vm_compute. repeat split. Qed.
+
+(* ================================================================== *)
+(* 11. atomicity: the file only changes under the write lock           *)
+(* ================================================================== *)
+
+(* Repaired protocol: a step that changes what a read of the file returns is a step of a
+   goroutine that is between ELock and EUnlock.  With [mutual_exclusion]: between the
+   ERLock and ERUnlock of a goroutine, and between the ELock and EUnlock of a goroutine,
+   no OTHER goroutine changes the file, i.e. the phases are atomic. *)
+Lemma file_changes_only_under_wlock c g c' :
+  sched_step Repaired c g = Some c' ->
+  content (final_file c') <> content (final_file c) ->
+  exists t, nth_error (g_threads c) g = Some t /\ holds_w t = true.
+Proof.
+  intros Hs Hne. destruct (sched_step_inv _ _ _ _ Hs) as [t [k [rest [Hn [Hcalls [_ ->]]]]]].
+  exists t. split; [exact Hn|]. unfold final_file in Hne. cbn [g_sh] in Hne.
+  unfold holds_w. destruct (t_pc t); cbn [ev_at apply_ev set_file file content] in Hne;
+    try reflexivity; exfalso; apply Hne; reflexivity.
+Qed.
+
+(* the Pinned protocol does not have this property: its EAppend is performed at a pc that
+   is reached without ELock (see [pinned_refuted]) *)
